@@ -75,6 +75,7 @@ def unaryF : String → Option (Rat → Rat)
   | "abs" => some rabs
   | "sqr" => some fun x => x * x
   | "neg" => some fun x => -x
+  | "inv" => some fun x => 1 / x          -- elem_inv (operands are non-zero)
   | _ => none
 
 def binaryF : String → Option (Rat → Rat → Rat)
